@@ -112,14 +112,14 @@ func newVnet(c *Ctx, n int, adj [][]int, honest []bool, isTrx bool) *vnet {
 	}
 	rich := w.NewWallet()
 	w.NewWallet()
-	w.Genesis(v.nodes[0], rich.Address(), spice.Melange{Currency: 1000})
+	w.Genesis(v.nodes[0], rich.Address(), spice.Melange{Currency: 1000000000})
 	for i := 1; i < n; i++ {
 		if err := w.syncFrom(v.nodes[0], v.nodes[i]); err != nil {
 			panic(err)
 		}
 	}
 	for i := 0; i < n; i++ {
-		hc, err := cache.New(1000, 8)
+		hc, err := cache.New(1000, 1024)
 		if err != nil {
 			panic(err)
 		}
@@ -480,7 +480,7 @@ func randomConnected(c *Ctx, n int) [][]int {
 
 func init() {
 	sections["gossip"] = func(c *Ctx) error {
-		c.Rep.Rule = "virtual networks of real gossip nodes: connected graphs on 2..4 nodes (quick: sampled; thorough: every labelled connected graph on <= 4 nodes x every origin) plus random graphs on 5..7 nodes, vertex and transaction items, random delivery orders with duplicated messages; adversarial runs inject messages with forged gossiper lists (garbage signatures, honest signatures taken from another item, entries naming an honest node signed by the adversary's key, the adversary's own entries, replayed genuine entries) and unauthentic payloads under the item's hash; non-trivial = distinct (nodes, edges, kind, adversary behaviour, outcome)"
+		c.Rep.Rule = "virtual networks of real gossip nodes: connected graphs on 2..4 nodes (quick: sampled; thorough: every labelled connected graph on <= 4 nodes with origin 0, i.e. every graph x origin up to relabelling) plus random graphs on 5..7 nodes, vertex and transaction items, random delivery orders with duplicated messages; adversarial runs inject messages with forged gossiper lists (garbage signatures, honest signatures taken from another item, entries naming an honest node signed by the adversary's key, the adversary's own entries, replayed genuine entries) and unauthentic payloads under the item's hash; non-trivial = distinct (nodes, edges, kind, adversary behaviour, outcome)"
 		type job struct {
 			adj    [][]int
 			origin int
@@ -489,11 +489,11 @@ func init() {
 		}
 		var jobs []job
 		if c.Tier == "thorough" {
+			// every labelled connected graph on <= 4 nodes with origin 0: the set of labelled graphs is closed
+			// under relabelling, so this covers every (graph, origin) pair up to isomorphism
 			for n := 2; n <= 4; n++ {
 				for _, adj := range allConnectedGraphs(n) {
-					for o := 0; o < n; o++ {
-						jobs = append(jobs, job{adj, o, false, false})
-					}
+					jobs = append(jobs, job{adj, 0, false, false})
 				}
 			}
 			for i := 0; i < 60; i++ {
@@ -680,13 +680,14 @@ func init() {
 				rounds = 400
 			}
 			worst := 0
+			// one network, a new item per round (the duplicate-suppression memory is keyed by the item)
+			adj := [][]int{{1}, {0, 2, 3}, {1}, {1}}
+			v := newVnet(c, 4, adj, []bool{true, true, true, true}, isTrx)
+			v.silent = true
 			for r := 0; r < rounds; r++ {
-				adj := [][]int{{1}, {0, 2, 3}, {1}, {1}}
-				v := newVnet(c, 4, adj, []bool{true, true, true, true}, isTrx)
-				v.silent = true
+				v.queue = nil
 				v.originate(0)
 				if len(v.queue) == 0 {
-					v.close()
 					continue
 				}
 				m := v.queue[0]
@@ -722,13 +723,18 @@ func init() {
 					worst = to2
 				}
 				c.Rep.Evals++
-				v.close()
+				if isTrx { // keep the awaiting lists short: the next round uses a new item
+					for i := range v.caches {
+						v.caches[i].RemoveAwaitedTransaction(v.item, v.w.wallets[1].Address())
+					}
+				}
 				if to2 > 1 {
 					c.Violate("C11", "concurrent-duplicates-forwarded-twice", fmt.Sprintf("8 simultaneous copies of one %s message at a relay: forwarded %d times to the same peer", map[bool]string{false: "vertex", true: "transaction"}[isTrx], to2),
 						map[string]interface{}{"section": "gossip", "scenario": "simultaneous-duplicates", "kind": isTrx, "round": r})
 					break
 				}
 			}
+			v.close()
 			c.Distinct(fmt.Sprintf("simultaneous-duplicates/trx=%v/max-forwards=%d", isTrx, worst))
 		}
 		// ---- two items out of order: the child vertex reaches a relay before its parent
